@@ -11,17 +11,29 @@ package orefafs
 //@   ensures[C05] r0 != nil ==> unchanged(node.children, node.nlink, node.data, node.mode, OrefaFS.nodes, MD.string.orefafs.node, MV.string.orefafs.node)
 //@ func (*OrefaFS).Mkdir
 //@   ensures[C05] r0 != nil ==> unchanged(node.children, node.nlink, node.data, node.mode, OrefaFS.nodes, MD.string.orefafs.node, MV.string.orefafs.node)
+//@ func (*OrefaFS).MkdirAll
+//@   ensures[C05] r0 != nil ==> unchanged(node.children, node.nlink, node.data, node.mode, OrefaFS.nodes, MD.string.orefafs.node, MV.string.orefafs.node)
 //@ func (*OrefaFS).Link
 //@   ensures[C05] r0 != nil ==> unchanged(node.children, node.nlink, node.data, node.mode, OrefaFS.nodes, MD.string.orefafs.node, MV.string.orefafs.node)
 //@ func (*OrefaFS).Symlink
 //@   ensures[C05] r0 != nil ==> unchanged(node.children, node.nlink, node.data, node.mode, OrefaFS.nodes, MD.string.orefafs.node, MV.string.orefafs.node)
-//@ func (*OrefaFS).MkdirAll
-//@   ensures[C05] r0 != nil ==> unchanged(node.children, node.nlink, node.data, node.mode, OrefaFS.nodes, MD.string.orefafs.node, MV.string.orefafs.node)
 //@ func (*OrefaFS).Chmod
 //@   ensures[C05] r0 != nil ==> unchanged(node.children, node.nlink, node.data, node.mode, OrefaFS.nodes, MD.string.orefafs.node, MV.string.orefafs.node)
-//@ func (*OrefaFS).Truncate
-//@   ensures[C05] r0 != nil ==> unchanged(node.children, node.nlink, node.data, node.mode, OrefaFS.nodes, MD.string.orefafs.node, MV.string.orefafs.node)
-//@ func (*OrefaFS).Chtimes
-//@   ensures[C05] r0 != nil ==> unchanged(node.children, node.nlink, node.data, node.mode, OrefaFS.nodes, MD.string.orefafs.node, MV.string.orefafs.node)
+//@   ensures[C05] r0 == nil ==> unchanged(node.children, node.nlink, node.data, OrefaFS.nodes, MD.string.orefafs.node, MV.string.orefafs.node)
 //@ func (*OrefaFS).Chown
 //@   ensures[C05] r0 != nil ==> unchanged(node.children, node.nlink, node.data, node.mode, OrefaFS.nodes, MD.string.orefafs.node, MV.string.orefafs.node)
+//@   ensures[C05] r0 == nil ==> unchanged(node.children, node.nlink, node.data, node.mode, OrefaFS.nodes, MD.string.orefafs.node, MV.string.orefafs.node)
+//@ func (*OrefaFS).Chtimes
+//@   ensures[C05] r0 != nil ==> unchanged(node.children, node.nlink, node.data, node.mode, OrefaFS.nodes, MD.string.orefafs.node, MV.string.orefafs.node)
+//@   ensures[C05] r0 == nil ==> unchanged(node.children, node.nlink, node.data, node.mode, OrefaFS.nodes, MD.string.orefafs.node, MV.string.orefafs.node)
+//@ func (*OrefaFS).Truncate
+//@   ensures[C05] r0 != nil ==> unchanged(node.children, node.nlink, node.data, node.mode, OrefaFS.nodes, MD.string.orefafs.node, MV.string.orefafs.node)
+//@   ensures[C05] r0 == nil ==> unchanged(node.children, node.nlink, node.mode, OrefaFS.nodes, MD.string.orefafs.node, MV.string.orefafs.node)
+
+// The successful attribute calls change only their attribute (first block above: Chmod the mode, Chown
+// the owner, Chtimes the time, Truncate the content); the read-only calls Chdir and Readlink change nothing at all
+// (Stat and Lstat are not under the clause: fillStatFrom has no frame contract yet).
+//@ func (*OrefaFS).Chdir
+//@   ensures[C05] unchanged(node.children, node.nlink, node.data, node.mode, OrefaFS.nodes, MD.string.orefafs.node, MV.string.orefafs.node)
+//@ func (*OrefaFS).Readlink
+//@   ensures[C05] unchanged(node.children, node.nlink, node.data, node.mode, OrefaFS.nodes, MD.string.orefafs.node, MV.string.orefafs.node)
